@@ -477,6 +477,13 @@ func c16(c *Ctx) {
 					continue
 				}
 				_, okA := allowed[fi.Name()]
+				// a function literal that is not called on the spot (a timer, a goroutine, a stored callback) runs outside the
+				// state machine's step, whoever created it
+				if okA && inDetachedLiteral(fi.Body(), l) {
+					r.Fail("C16.V4", fi.Name(), "writes "+astx.Str(l)+" from a function literal that runs later", c.P.Pos(l.Pos()),
+						"the network configuration is modified by a callback (timer, goroutine): the change happens outside the replicated step, at a time each node chooses for itself")
+					continue
+				}
 				r.Check(okA, "C16.V4", fi.Name(), "writes "+astx.Str(l), c.P.Pos(l.Pos()), allowed[fi.Name()],
 					"the network configuration is modified outside the state machine's Config arm / GLINE / snapshot load: the change is not replicated")
 			}
@@ -664,6 +671,32 @@ func c16(c *Ctx) {
 				}
 			}
 			visit(src, hi, 0)
+			// a variable with several definitions (a helper that was expanded here): every definition counts, through
+			// intermediate variables
+			seenObj := map[types.Object]bool{}
+			var through func(e ast.Expr, depth int)
+			through = func(e ast.Expr, depth int) {
+				if e == nil || depth > 4 {
+					return
+				}
+				visit(e, hi, 0)
+				ast.Inspect(e, func(n ast.Node) bool {
+					id, ok := n.(*ast.Ident)
+					if !ok {
+						return true
+					}
+					obj := astx.Obj(hi, id)
+					if v, isVar := obj.(*types.Var); !isVar || v.IsField() || seenObj[obj] || v.Parent() == nil || v.Pkg() == nil || v.Parent() == v.Pkg().Scope() {
+						return true
+					}
+					seenObj[obj] = true
+					for _, d := range defsOf(hi, hpc.Node(), obj) {
+						through(d, depth+1)
+					}
+					return true
+				})
+			}
+			through(src, 0)
 			r.Check(bad == "", "C16.V2", hpc.Name(), "the revision compared with the one in force comes from the request alone", c.P.Pos(call.Pos()), "no use of the current revision in computing it",
 				"the revision handed to the gate is computed with the help of "+bad+": a request that does not name the revision in force (e.g. 'If-Match: *') is given the current one and passes — a stale edit overwrites another administrator's update")
 		}
@@ -780,3 +813,42 @@ func (c *Ctx) c16Snapshot() {
 }
 
 var _ = load.ModPath
+
+// inDetachedLiteral reports whether x lies in a function literal of body that is neither called where it stands
+// (`func() {…}()`) nor deferred (`defer func() {…}()`).
+func inDetachedLiteral(body ast.Node, x ast.Node) bool {
+	detached := false
+	var stack []ast.Node
+	ast.Inspect(body, func(n ast.Node) bool {
+		if n == nil {
+			stack = stack[:len(stack)-1]
+			return true
+		}
+		stack = append(stack, n)
+		if _, isIdent := n.(*ast.Ident); !isIdent || n.Pos() != x.Pos() {
+			return true // x may be synthesized (the target of a delete): found by its first identifier
+		}
+		for i, s := range stack {
+			lit, ok := s.(*ast.FuncLit)
+			if !ok {
+				continue
+			}
+			immediate := false
+			if i > 0 {
+				if call, ok := stack[i-1].(*ast.CallExpr); ok && ast.Unparen(call.Fun) == ast.Expr(lit) {
+					immediate = true
+					if i > 1 {
+						if _, isGo := stack[i-2].(*ast.GoStmt); isGo {
+							immediate = false
+						}
+					}
+				}
+			}
+			if !immediate {
+				detached = true
+			}
+		}
+		return true
+	})
+	return detached
+}
